@@ -60,6 +60,7 @@ CL_G1 = "G1_gcxs_reduce_recompresses_kept_axes"
 CL_G2 = "G2_gcxs_getitem_enumerates_selected_columns"
 CL_V1 = "V1_var_std_broadcast_intermediate_nnz_times_extent"
 CL_T1 = "T1_dot_coo_coo_resets_column_buffer_per_row"
+CL_E1 = "E1_scalar_operand_broadcast_to_full_shape_2pow60"
 
 # ============================================================================ implementation side
 _WARM = False
@@ -74,37 +75,21 @@ def _vmsize():
 
 
 def _warm():
-    """JIT-compile every kernel the campaign reaches, once per worker, on tiny arrays"""
+    """JIT-compile every kernel the campaign reaches, once per worker: the whole campaign on tiny analogues of its
+    shapes (same numbers of axes, formats, dtypes and call forms), in-process, results discarded"""
     global _WARM
     if _WARM:
         return
-    import numpy as np
-    import sparse
-    s = sparse.COO.from_numpy((np.arange(24).reshape(2, 3, 4) % 5 - 2).astype(np.int64))
-    m = sparse.COO.from_numpy((np.arange(12).reshape(3, 4) % 3).astype(np.int64))
-    m2 = sparse.COO.from_numpy((np.arange(8).reshape(4, 2) % 3).astype(np.int64))
-    for a in (s, sparse.GCXS.from_coo(s, compressed_axes=(0,)), sparse.DOK.from_coo(s)):
+    rng = random.Random(1)
+    for case in gen_cases("tiny", rng, Scale(tiny=True)):
         try:
-            a[1]; a[:, ::2]; a[::-1]; a[1, 2, 3]; a[1:2, ::-1, 1::2]; a * 2; a.T
-            if not isinstance(a, sparse.DOK):
-                a[[0, 1]]; a.sum(axis=0); a.max(axis=(0, 1)); a.min(axis=2); a.any(axis=1); a.mean(axis=0)
-                a.reshape((6, 4)); a + a; a * a; a.sum(); abs(a); a.flatten()
-                sparse.concatenate([a, a], axis=1); sparse.stack([a, a])
-                a.asformat("coo"); a.asformat("dok"); a.asformat("gcxs")
+            arrs = [vlib.build_array(s) for s in case["inputs"]]
+            r = _apply(case["call"], arrs)
+            r = _post(case.get("post"), r, arrs)
+            if not isinstance(r, dict):
+                vlib.plain(r)
         except Exception:  # noqa: BLE001
             pass
-    for a, b in ((m, m2), (m.asformat("gcxs"), m2.asformat("gcxs")), (m.asformat("gcxs"), m2.asformat("gcxs", compressed_axes=(1,)))):
-        try:
-            a @ b; a @ b[:, 0]; a[0] @ b; sparse.dot(a[0], b[:, 0])
-        except Exception:  # noqa: BLE001
-            pass
-    try:
-        s.var(axis=0); sparse.sort(s, axis=2); s.nonzero(); sparse.roll(s, 1, axis=1); sparse.flip(s, axis=0)
-        sparse.broadcast_to(s[:1], (3, 3, 4)); s * s[:1]; sparse.squeeze(s[:1]); sparse.expand_dims(s, axis=1)
-        sparse.moveaxis(s, 0, 2); s.swapaxes(0, 1); s.clip(-1, 1); s > 0; -s; s ** 2
-        sparse.elemwise(np.maximum, s, s); sparse.elemwise(np.minimum, s, s); s != s; s - s
-    except Exception:  # noqa: BLE001
-        pass
     _WARM = True
 
 
@@ -259,10 +244,19 @@ def impl_case(case):
                 secs = time.time() - t0
                 r1 = resource.getrusage(resource.RUSAGE_SELF).ru_maxrss
                 resource.setrlimit(resource.RLIMIT_AS, (soft, hard))
+                big_indptr = False
                 try:
                     if not isinstance(res, BaseException):
                         res = _post(case.get("post"), res, arrs)
+                        import sparse
+                        if isinstance(res, sparse.GCXS) and res.ndim >= 2 and len(res.indptr) > 5000:
+                            # an index pointer with millions of entries (inherent in the result format) cannot be
+                            # shipped to Coq as a literal: compare the entries only
+                            res = res.tocoo()
+                            big_indptr = True
                     out = res if isinstance(res, dict) else vlib.plain(res)
+                    if big_indptr:
+                        out["gcxs_large_indptr_compared_as_coo"] = True
                 except BaseException as ex:  # noqa: BLE001
                     out = {"k": "other", "repr": f"POST FAILED {type(ex).__name__}: {ex}"[:200]}
                 if isinstance(res, BaseException):
@@ -414,10 +408,10 @@ def rand_spec(rng, shape, nnz, fmt="coo", caxes=None, small=None, values=(-3, -2
     coordinates collide across operands (products, element-wise matches, reductions with real groups)"""
     shape = list(shape)
     small = small or {}
-    nnz = min(nnz, prod((len(small[i]) if isinstance(small.get(i), list) else small.get(i, d)) for i, d in enumerate(shape)))
+    nnz = min(nnz, prod((len(small[i]) if isinstance(small.get(i), list) else min(d, small.get(i, d))) for i, d in enumerate(shape)))
     cs = set()
     while len(cs) < nnz:
-        cs.add(tuple(rng.choice(small[i]) if isinstance(small.get(i), list) else rng.randrange(small.get(i, d))
+        cs.add(tuple(rng.choice(small[i]) if isinstance(small.get(i), list) else rng.randrange(min(d, small.get(i, d)))
                      for i, d in enumerate(shape)))
     cs = sorted(cs)
     return {"shape": shape, "coords": [list(c) for c in cs], "data": [rng.choice(values) for _ in cs], "fill": fill,
@@ -427,6 +421,7 @@ def rand_spec(rng, shape, nnz, fmt="coo", caxes=None, small=None, values=(-3, -2
 def related_spec(rng, base, nnz, overlap=0.5):
     """another operand of the same shape sharing about `overlap` of its positions with base"""
     shape = base["shape"]
+    nnz = min(nnz, prod(shape))
     cs = set()
     pool = [tuple(c) for c in base["coords"]]
     while len(cs) < nnz:
@@ -439,18 +434,56 @@ def related_spec(rng, base, nnz, overlap=0.5):
             "fill": 0, "format": base["format"], "caxes": base.get("caxes")}
 
 
-S3 = (10 ** 6, 10 ** 6, 10 ** 6)
-P3 = (999983, 999979, 1000003)              # 999965000243001071 elements > 2^53 (the former D12 input)
-M2 = (2 ** 31, 2 ** 31)
-B2 = (10 ** 9, 10 ** 9)
-V1 = (10 ** 18,)
-A4 = (10 ** 5, 4, 10 ** 6, 10 ** 6)
-K3 = (10 ** 9, 10 ** 9, 4)
+class Scale:
+    """the shapes of the campaign; tiny=True gives small analogues of every shape (same number of axes, same call
+    forms) that the workers use once to JIT-compile every kernel before the measured calls"""
+
+    def __init__(self, tiny=False):
+        self.tiny = tiny
+        if not tiny:
+            self.S3 = (10 ** 6, 10 ** 6, 10 ** 6)
+            self.P3 = (999983, 999979, 1000003)      # 999965000243001071 elements > 2^53 (the former D12 input)
+            self.M2 = (2 ** 31, 2 ** 31)
+            self.B2 = (10 ** 9, 10 ** 9)
+            self.V1 = (10 ** 18,)
+            self.A4 = (10 ** 5, 4, 10 ** 6, 10 ** 6)
+            self.K3 = (10 ** 9, 10 ** 9, 4)
+            self.GS3 = (50, 10 ** 6, 10 ** 6)         # GCXS, first axis compressed
+            self.G2 = (1000, 10 ** 7)
+            self.G3 = (10, 10 ** 6, 10 ** 6)
+            self.VAR = (16, 2 ** 20, 2 ** 20)
+            self.BC = [(1, 10 ** 12, 1), (10 ** 9, 1, 10 ** 9), (1, 1, 10 ** 18)]
+            self.CONV = [((100, 10 ** 9, 10 ** 7), [0]), ((1000, 10 ** 15), [0]), ((10 ** 15, 500), [1]),
+                         ((20, 10 ** 8, 30, 10 ** 8), [0, 2]), ((10 ** 6, 7, 10 ** 6), [1])]
+            self.PROD = [(200, 10 ** 7, 10 ** 6), (10 ** 6, 10 ** 7, 200), (1000, 10 ** 6, 10 ** 6)]
+            self.GPROD = (100, 10 ** 7)
+            self.SLOW = (10 ** 6, 1000)
+            self.col = 40
+        else:
+            self.S3 = (6, 5, 7)
+            self.P3 = (5, 7, 3)
+            self.M2 = (8, 8)
+            self.B2 = (9, 9)
+            self.V1 = (40,)
+            self.A4 = (5, 4, 6, 7)
+            self.K3 = (6, 5, 4)
+            self.GS3 = (4, 5, 7)
+            self.G2 = (6, 30)
+            self.G3 = (3, 8, 9)
+            self.VAR = (4, 8, 8)
+            self.BC = [(1, 12, 1), (9, 1, 9), (1, 1, 18)]
+            self.CONV = [((4, 9, 7), [0]), ((5, 15), [0]), ((15, 5), [1]), ((3, 8, 3, 8), [0, 2]), ((6, 7, 6), [1])]
+            self.PROD = [(5, 30, 6), (6, 30, 5), (7, 20, 6)]
+            self.GPROD = (5, 30)
+            self.SLOW = None
+            self.col = 4
 
 
 def pick_nnz(rng, tier, big_ok=True):
+    if tier == "tiny":
+        return rng.randint(3, 12)
     r = rng.random()
-    if big_ok and r < (0.02 if tier == "quick" else 0.06):
+    if big_ok and tier != "quick" and r < 0.05:
         return rng.choice([1000, 3000])
     if r < 0.25:
         return rng.randint(3, 10)
@@ -485,6 +518,7 @@ def rand_index(rng, spec, allow_int=True):
             idx.append(FULL)
         else:
             step = rng.choice([1, 1, 2, 3, 7, -1, -1, -2, -5, 1000003])
+
             def bound():
                 t = rng.random()
                 if t < 0.3:
@@ -495,14 +529,14 @@ def rand_index(rng, spec, allow_int=True):
                     return -rng.randrange(1, d + 1)
                 return rng.randrange(d)
             if rng.random() < 0.5:
-                # a window that contains the pivot and is aligned with it
+                # a window aligned with the pivot, so that the selection is not empty
                 k = rng.randrange(0, 5)
                 if step > 0:
                     lo = pivot[a] - k * step
-                    idx.append(("s", lo if lo >= 0 else None if step == 1 else pivot[a] % step, bound() if rng.random() < 0.3 else None, step))
+                    idx.append(("s", lo if lo >= 0 else pivot[a] % step, bound() if rng.random() < 0.3 else None, step))
                 else:
-                    hi = pivot[a] - k * step
-                    idx.append(("s", hi if hi < d else None if step == -1 else pivot[a] + ((d - 1 - pivot[a]) // (-step)) * (-step), None, step))
+                    hi = pivot[a] + k * (-step)
+                    idx.append(("s", hi if hi < d else pivot[a] + ((d - 1 - pivot[a]) // (-step)) * (-step), None, step))
             else:
                 idx.append(("s", bound(), bound(), step))
     if all(isinstance(e, int) for e in idx):
@@ -510,13 +544,21 @@ def rand_index(rng, spec, allow_int=True):
     return idx
 
 
-# ============================================================================ case generation
-def gen_cases(tier, rng):
-    cases = []
-    n_rep = 1 if tier == "quick" else 4
+def scalar_op_too_big(shape, call):
+    """x * 2, x + 5, x ** 2, x > 0: the scalar is broadcast (np.broadcast_to, a zero-stride view) to the full logical
+    shape; NumPy refuses views with size * itemsize >= 2^63, i.e. 2^60 or more logical elements for an 8-byte scalar"""
+    return call[0] in ("mulc", "addc", "sq", "gt0") and prod(shape) * 8 >= 2 ** 63
 
-    def shapes3():
-        return [S3, P3]
+
+# ============================================================================ case generation
+def gen_cases(tier, rng, sc=None):
+    import itertools
+    sc = sc or Scale()
+    cases = []
+    tiny = sc.tiny
+    n_rep = 1 if tier in ("quick", "tiny") else 4
+    few = tier in ("quick", "tiny")
+    S3, P3, M2, B2, V1, A4, K3 = sc.S3, sc.P3, sc.M2, sc.B2, sc.V1, sc.A4, sc.K3
 
     # ---------------------------------------------------------------- element-wise (COO, GCXS, DOK)
     for _ in range(n_rep):
@@ -525,8 +567,8 @@ def gen_cases(tier, rng):
                 if fmt == "gcxs" and (len(shape) < 2 or shape in (M2, B2)):
                     continue
                 if fmt == "gcxs":
-                    shape_ = (50,) + tuple(shape[1:]) if shape in (S3, P3) else shape
-                    caxes = [0] if shape_ is not A4 and shape_ != A4 else [1]
+                    shape_ = sc.GS3 if shape in (S3, P3) else shape
+                    caxes = [1] if shape_ == A4 else [0]
                 else:
                     shape_, caxes = shape, None
                 nnz = pick_nnz(rng, tier)
@@ -539,18 +581,25 @@ def gen_cases(tier, rng):
                            (["clip", -1, 2], ("map", "(UMinC 2)", ("map", "(UMaxC (-1))", IN0))),
                            (["addc", 5], ("map", "(UAddC 5)", IN0)),
                            (["self2", "add"], ("zip", "BAdd", IN0, IN0)), (["self2", "mul"], ("zip", "BMul", IN0, IN0))]
-                for call, expr in rng.sample(un, 3 if tier == "quick" else len(un)):
-                    cases.append(mk_case(f"{fmt}:{call[0]}{call[1:]}", "elemwise", [x], call, expr))
+                for call, expr in (un if tiny or not few else rng.sample(un, 3)):
+                    cases.append(mk_case(f"{fmt}:{call[0]}{call[1:]}", "elemwise", [x], call, expr,
+                                         expect_clause=CL_E1 if scalar_op_too_big(shape_, call) else None))
                 if fmt != "dok":
                     bi = [("add", "BAdd"), ("mul", "BMul"), ("sub", "BSub"), ("max", "BMax"), ("min", "BMin"), ("ne", "BNe")]
-                    for f, b in rng.sample(bi, 2 if tier == "quick" else len(bi)):
+                    for f, b in (bi if tiny or not few else rng.sample(bi, 2)):
                         cases.append(mk_case(f"{fmt}:x {f} y", "elemwise", [x, y], ["bin", f], ("zip", b, IN0, IN1)))
+    if not tiny:
+        # the scalar operand on 2^62 logical elements (deterministic instance of clause E1) and just below the bound
+        x = rand_spec(rng, M2, 20)
+        cases.append(mk_case("coo:mulc[2]", "elemwise", [x], ["mulc", 2], ("map", "(UMulC 2)", IN0), expect_clause=CL_E1))
+        x = rand_spec(rng, (2 ** 30, 2 ** 29), 20)
+        cases.append(mk_case("coo:mulc[2]", "elemwise", [x], ["mulc", 2], ("map", "(UMulC 2)", IN0)))
     # broadcasting against (1,N,1)-like operands (x * b keeps the fill)
     for _ in range(2 * n_rep):
-        for shape in shapes3():
-            x = rand_spec(rng, shape, pick_nnz(rng, tier, big_ok=False), small={1: 40})
+        for shape in [S3, P3]:
+            x = rand_spec(rng, shape, pick_nnz(rng, tier, big_ok=False), small={1: sc.col})
             for bshape in [(1, shape[1], 1), (shape[1], 1), (1, 1, shape[2]), (shape[0], 1, 1), (shape[2],)]:
-                small = {i: 40 for i, d in enumerate(bshape) if d == shape[1] and (len(bshape) - i) == 2}
+                small = {i: sc.col for i, d in enumerate(bshape) if d == shape[1] and (len(bshape) - i) == 2}
                 b = rand_spec(rng, bshape, rng.randint(3, 40), small=small or None)
                 cases.append(mk_case(f"coo:x * b{list(bshape)}", "elemwise-broadcast", [x, b], ["bin", "mul"], ("bmul", IN0, IN1)))
 
@@ -559,32 +608,33 @@ def gen_cases(tier, rng):
         for shape in [S3, P3, M2, V1, A4]:
             for fmt in ["coo", "dok"]:
                 x = rand_spec(rng, shape, pick_nnz(rng, tier), fmt)
-                for _k in range(4 if tier == "quick" else 10):
+                for _k in range(4 if few else 10):
                     idx = rand_index(rng, x)
-                    rk = "sparse"
-                    cases.append(mk_case(f"{fmt}:x[{idx}]", "index", [x], ["getitem", idx], ("get", idx, IN0), rk))
+                    cases.append(mk_case(f"{fmt}:x[{idx}]", "index", [x], ["getitem", idx], ("get", idx, IN0)))
                 if fmt == "coo":
                     # element access: a stored position and an unstored one
                     for pos in [x["coords"][0], [rng.randrange(d) for d in shape]]:
                         cases.append(mk_case(f"coo:x[{pos}]", "index", [x], ["getitem", list(pos)],
                                              ("reshape", [], ("get", [("s", p, p + 1, None) for p in pos], IN0)), "scalar"))
                     # a short integer array along one axis, slices elsewhere
-                    for _k in range(2 if tier == "quick" else 5):
+                    for _k in range(2 if few else 5):
                         a = rng.randrange(len(shape))
                         ids = [rng.choice(x["coords"])[a] if rng.random() < 0.7 else rng.randrange(shape[a]) for _ in range(rng.randint(1, 4))]
                         others = [e if not isinstance(e, int) else FULL for e in rand_index(rng, x, allow_int=False)]
                         idx = [("a", ids) if i == a else others[i] for i in range(len(shape))]
                         parts = [("get", [("s", v, v + 1, None) if i == a else others[i] for i in range(len(shape))], IN0) for v in ids]
                         cases.append(mk_case(f"coo:x[{idx}]", "index-array", [x], ["getitem", idx], e_chain_concat(a, parts)))
-    # GCXS indexing: 2-d (allowed O(axis) work) and 3-d (two long uncompressed axes)
+    # GCXS indexing: 2-d (work proportional to ONE axis is allowed) and 3-d (two long uncompressed axes)
     for _ in range(n_rep):
-        g2 = rand_spec(rng, (1000, 10 ** 7), pick_nnz(rng, tier, big_ok=False), "gcxs", [0])
-        for idx in [[5, FULL], [g2["coords"][0][0], FULL], [FULL, g2["coords"][0][1]], [("s", None, None, 2), ("s", None, None, 3)],
-                    [("s", None, None, -1), FULL], [FULL, ("s", 100, 10 ** 6, 7)], [("s", 3, 900, 5), FULL]]:
+        g2 = rand_spec(rng, sc.G2, pick_nnz(rng, tier, big_ok=False), "gcxs", [0])
+        r0, c0_ = g2["coords"][0]
+        g2idx = [[r0, FULL], [FULL, c0_], [("s", None, None, 2), ("s", None, None, 3)], [("s", None, None, -1), FULL],
+                 [FULL, ("s", 3, sc.G2[1] // 10, 7)], [("s", 1, sc.G2[0] - 1, 5), FULL], [2, FULL]]
+        for idx in (g2idx if tiny or not few else g2idx[:4]):
             cases.append(mk_case(f"gcxs2:x[{idx}]", "index", [g2], ["getitem", idx], ("get", idx, IN0)))
-        g3 = rand_spec(rng, (10, 10 ** 6, 10 ** 6), pick_nnz(rng, tier, big_ok=False), "gcxs", [0])
+        g3 = rand_spec(rng, sc.G3, pick_nnz(rng, tier, big_ok=False), "gcxs", [0])
         c0 = g3["coords"][0]
-        for idx in [[c0[0], FULL, FULL], [("s", 2, 8, 2), FULL, FULL], [FULL, ("s", None, None, -1), FULL]]:
+        for idx in [[c0[0], FULL, FULL], [("s", 0, 3, 2), FULL, FULL], [FULL, ("s", None, None, -1), FULL]]:
             cases.append(mk_case(f"gcxs3:x[{idx}]", "index", [g3], ["getitem", idx], ("get", idx, IN0), expect_clause=CL_G2))
         for idx in [[FULL, c0[1], FULL], [FULL, FULL, c0[2]], list(c0)]:
             if all(isinstance(e, int) for e in idx):
@@ -599,13 +649,13 @@ def gen_cases(tier, rng):
             x = rand_spec(rng, shape, pick_nnz(rng, tier), small=small)
             nd = len(shape)
             subsets = axis_subsets(nd)
-            if tier == "quick" and len(subsets) > 7:
+            if few and len(subsets) > 7:
                 subsets = rng.sample(subsets, 7)
             for axes in subsets:
                 mask = [i in axes for i in range(nd)]
                 full = len(axes) == nd
                 rk = "scalar" if full else "sparse"
-                kinds = ["sum", "max", "min", "any"] if tier != "quick" else rng.sample(["sum", "max", "min", "any"], 2)
+                kinds = ["sum", "max", "min", "any"] if tiny or not few else rng.sample(["sum", "max", "min", "any"], 2)
                 for kind in kinds:
                     if kind == "sum":
                         expr = ("sum", mask, IN0)
@@ -622,13 +672,13 @@ def gen_cases(tier, rng):
                                          ("sum", mask, IN0), rk, post=["mul_round", cnt]))
     # GCXS reductions
     for _ in range(n_rep):
-        g2 = rand_spec(rng, (1000, 10 ** 7), pick_nnz(rng, tier, big_ok=False), "gcxs", [0], small={1: 30})
+        g2 = rand_spec(rng, sc.G2, pick_nnz(rng, tier, big_ok=False), "gcxs", [0], small={1: 30})
         for axes in [[0], [1], [0, 1]]:
             mask = [i in axes for i in range(2)]
             for kind, expr in [("sum", ("sum", mask, IN0)), ("max", ("max", mask, IN0))]:
                 cases.append(mk_case(f"gcxs2:{kind}(axis={axes})", "reduce", [g2], ["reduce", kind, None if len(axes) == 2 else axes],
                                      expr, "scalar" if len(axes) == 2 else "sparse"))
-        g3 = rand_spec(rng, (10, 10 ** 6, 10 ** 6), pick_nnz(rng, tier, big_ok=False), "gcxs", [0], small={1: 30})
+        g3 = rand_spec(rng, sc.G3, pick_nnz(rng, tier, big_ok=False), "gcxs", [0], small={1: 30})
         for axes in [[1], [2], [1, 2], [0, 1], [0, 2]]:
             mask = [i in axes for i in range(3)]
             cases.append(mk_case(f"gcxs3:sum(axis={axes})", "reduce", [g3], ["reduce", "sum", axes], ("sum", mask, IN0)))
@@ -638,8 +688,8 @@ def gen_cases(tier, rng):
                                  (kind, mask, IN0), expect_clause=CL_G1))
     # var: mean of squared deviations, through a broadcast intermediate
     for _ in range(n_rep):
-        c3 = rand_spec(rng, (16, 2 ** 20, 2 ** 20), rng.randint(10, 60), small={1: 30})
-        for axes, clause in [([0], None), ([1], CL_V1), ([2], CL_V1)]:
+        c3 = rand_spec(rng, sc.VAR, rng.randint(10, 60), small={1: 30})
+        for axes, clause in ([([0], None), ([1], CL_V1)] if few and not tiny else [([0], None), ([1], CL_V1), ([2], CL_V1)]):
             mask = [i in axes for i in range(3)]
             cnt = prod(c3["shape"][a] for a in axes)
             # var * cnt^2 = cnt * sum(x^2) - (sum x)^2
@@ -647,19 +697,20 @@ def gen_cases(tier, rng):
             cases.append(mk_case(f"coo:var(axis={axes})", "var", [c3], ["var", axes], expr, post=["mul_round", cnt * cnt], expect_clause=clause))
 
     # ---------------------------------------------------------------- shape manipulation
-    import itertools
     for _ in range(n_rep):
         for shape in [S3, P3, A4, M2]:
             x = rand_spec(rng, shape, pick_nnz(rng, tier))
             nd = len(shape)
             perms = list(itertools.permutations(range(nd)))
-            for perm in rng.sample(perms, min(len(perms), 3 if tier == "quick" else 8)):
+            for perm in rng.sample(perms, min(len(perms), 3 if few else 8)):
                 cases.append(mk_case(f"coo:transpose({list(perm)})", "shape", [x], ["transpose", list(perm)], ("trans", list(perm), IN0)))
             cases.append(mk_case("coo:T", "shape", [x], ["T"], ("trans", list(range(nd))[::-1], IN0)))
             a, b = rng.sample(range(nd), 2)
-            p = list(range(nd)); p[a], p[b] = p[b], p[a]
+            p = list(range(nd))
+            p[a], p[b] = p[b], p[a]
             cases.append(mk_case(f"coo:swapaxes({a},{b})", "shape", [x], ["swapaxes", a, b], ("trans", p, IN0)))
-            p = list(range(nd)); p.insert(b, p.pop(a))
+            p = list(range(nd))
+            p.insert(b, p.pop(a))
             cases.append(mk_case(f"coo:moveaxis({a},{b})", "shape", [x], ["moveaxis", a, b], ("trans", p, IN0)))
             n = prod(shape)
             cases.append(mk_case("coo:flatten", "shape", [x], ["flatten"], ("reshape", [n], IN0)))
@@ -670,7 +721,8 @@ def gen_cases(tier, rng):
                 sh = [-1, shape[-1]]
                 cases.append(mk_case(f"coo:reshape({sh})", "shape", [x], ["reshape", sh], ("reshape", [n // shape[-1], shape[-1]], IN0)))
             else:
-                for sh in [[2 ** 20, 2 ** 42], [2 ** 62], [2 ** 10, 2 ** 21, 2 ** 31]]:
+                a0, b0 = shape
+                for sh in [[a0 // 4, b0 * 4], [n], [a0 // 2, 2, b0]]:
                     cases.append(mk_case(f"coo:reshape({sh})", "shape", [x], ["reshape", sh], ("reshape", sh, IN0)))
             ax = rng.randrange(nd + 1)
             cases.append(mk_case(f"coo:expand_dims({ax})", "shape", [x], ["expand_dims", ax],
@@ -684,7 +736,7 @@ def gen_cases(tier, rng):
                 cases.append(mk_case(f"coo:roll({sft},None)", "shape", [x], ["roll", sft, None],
                                      ("reshape", list(shape), e_roll_axis([n], sft, 0, ("reshape", [n], IN0)))))
         # squeeze / broadcast_to on (1, N, 1)-like arrays
-        for bshape in [(1, 10 ** 12, 1), (10 ** 9, 1, 10 ** 9), (1, 1, 10 ** 18)]:
+        for bshape in sc.BC:
             b = rand_spec(rng, bshape, pick_nnz(rng, tier, big_ok=False))
             cases.append(mk_case("coo:squeeze", "shape", [b], ["squeeze", None], ("reshape", [d for d in bshape if d != 1], IN0)))
             ones = [i for i, d in enumerate(bshape) if d == 1]
@@ -692,38 +744,37 @@ def gen_cases(tier, rng):
                                  ("reshape", [d for i, d in enumerate(bshape) if i != ones[0]], IN0)))
             k = rng.randint(2, 4)
             a = ones[0]
-            tgt = list(bshape); tgt[a] = k
+            tgt = list(bshape)
+            tgt[a] = k
             cases.append(mk_case(f"coo:broadcast_to({tgt})", "shape", [b], ["broadcast_to", tgt], e_chain_concat(a, [IN0] * k)))
             tgt2 = [k] + list(bshape)
             cases.append(mk_case(f"coo:broadcast_to({tgt2})", "shape", [b], ["broadcast_to", tgt2],
                                  e_chain_concat(0, [("reshape", [1] + list(bshape), IN0)] * k)))
     # GCXS shape ops
     for _ in range(n_rep):
-        g3 = rand_spec(rng, (10, 10 ** 6, 10 ** 6), pick_nnz(rng, tier, big_ok=False), "gcxs", [0])
+        g3 = rand_spec(rng, sc.G3, pick_nnz(rng, tier, big_ok=False), "gcxs", [0])
+        d0, d1, d2 = sc.G3
         for perm in [[0, 2, 1], [1, 0, 2], [2, 1, 0]]:
             cases.append(mk_case(f"gcxs3:transpose({perm})", "shape", [g3], ["transpose", perm], ("trans", perm, IN0)))
-        for sh in [[10, 10 ** 12], [10 ** 7, 10 ** 6], [10 ** 13]]:
+        for sh in [[d0, d1 * d2], [d0 * d1, d2], [d0 * d1 * d2]]:
             cases.append(mk_case(f"gcxs3:reshape({sh})", "shape", [g3], ["reshape", sh], ("reshape", sh, IN0)))
-        cases.append(mk_case("gcxs3:flatten", "shape", [g3], ["flatten"], ("reshape", [10 ** 13], IN0)))
+        cases.append(mk_case("gcxs3:flatten", "shape", [g3], ["flatten"], ("reshape", [d0 * d1 * d2], IN0)))
 
-    # ---------------------------------------------------------------- joining
+    # ---------------------------------------------------------------- joining (the result must still have < 2^63 elements)
     for _ in range(n_rep):
-        for shape in [S3, P3, M2, V1]:
+        for shape in [S3, P3, B2, V1]:
             nd = len(shape)
             x = rand_spec(rng, shape, pick_nnz(rng, tier))
             y = related_spec(rng, x, pick_nnz(rng, tier, big_ok=False))
             z = related_spec(rng, x, pick_nnz(rng, tier, big_ok=False))
             for ax in range(nd):
-                if shape == V1:
-                    continue     # 2 * 10^18 still fits intp, but keep the 1-d case for stack only
                 cases.append(mk_case(f"coo:concatenate(axis={ax})", "join", [x, y], ["concatenate", ax], ("concat", ax, IN0, IN1)))
-            ax = rng.randrange(nd) if shape != V1 else 0
-            if shape != V1:
-                cases.append(mk_case(f"coo:concatenate3(axis={ax})", "join", [x, y, z], ["concatenate", ax],
-                                     ("concat", ax, ("concat", ax, IN0, IN1), ("in", 2))))
+            ax = rng.randrange(nd)
+            cases.append(mk_case(f"coo:concatenate3(axis={ax})", "join", [x, y, z], ["concatenate", ax],
+                                 ("concat", ax, ("concat", ax, IN0, IN1), ("in", 2))))
             for ax in range(nd + 1):
                 cases.append(mk_case(f"coo:stack(axis={ax})", "join", [x, y], ["stack", ax], ("stack", ax, IN0, IN1)))
-        g3 = rand_spec(rng, (10, 10 ** 6, 10 ** 6), pick_nnz(rng, tier, big_ok=False), "gcxs", [0])
+        g3 = rand_spec(rng, sc.G3, pick_nnz(rng, tier, big_ok=False), "gcxs", [0])
         h3 = related_spec(rng, g3, pick_nnz(rng, tier, big_ok=False))
         for ax in range(3):
             cases.append(mk_case(f"gcxs3:concatenate(axis={ax})", "join", [g3, h3], ["concatenate", ax], ("concat", ax, IN0, IN1)))
@@ -732,8 +783,7 @@ def gen_cases(tier, rng):
 
     # ---------------------------------------------------------------- conversion between sparse formats
     for _ in range(n_rep):
-        for shape, cax in [((100, 10 ** 9, 10 ** 7), [0]), ((1000, 10 ** 15), [0]), ((10 ** 15, 500), [1]), ((20, 10 ** 8, 30, 10 ** 8), [0, 2]),
-                           ((10 ** 6, 7, 10 ** 6), [1])]:
+        for shape, cax in sc.CONV:
             x = rand_spec(rng, shape, pick_nnz(rng, tier, big_ok=False))
             mask = [i in cax for i in range(len(shape))]
             cases.append(mk_case(f"coo->gcxs{cax}", "convert", [x], ["asformat", "gcxs", cax], IN0, ("gcxs", mask)))
@@ -751,7 +801,7 @@ def gen_cases(tier, rng):
 
     # ---------------------------------------------------------------- products of 1-d and 2-d operands
     for _ in range(n_rep):
-        for (n, m, p) in [(1000, 10 ** 7, 10 ** 6), (10 ** 6, 10 ** 7, 1000), (300, 10 ** 7, 10 ** 7)]:
+        for (n, m, p) in sc.PROD:
             ks = sorted(rng.sample(range(m), 15))
             a = rand_spec(rng, (n, m), rng.randint(10, 120), small={1: ks})
             b = rand_spec(rng, (m, p), rng.randint(10, 120), small={0: ks})
@@ -765,19 +815,21 @@ def gen_cases(tier, rng):
             cases.append(mk_case(f"coo:dot(({m},),({m},))", "product", [w, u], ["dot"], ("sum", [True], ("zip", "BMul", IN0, IN1)), "scalar"))
         v = rand_spec(rng, V1, rng.randint(5, 60))
         v2 = related_spec(rng, v, rng.randint(5, 60))
-        cases.append(mk_case("coo:dot((10^18,),(10^18,))", "product", [v, v2], ["dot"], ("sum", [True], ("zip", "BMul", IN0, IN1)), "scalar"))
+        cases.append(mk_case(f"coo:dot(({V1[0]},),({V1[0]},))", "product", [v, v2], ["dot"], ("sum", [True], ("zip", "BMul", IN0, IN1)), "scalar"))
         # GCXS with small row counts
-        m = 10 ** 7
+        gr, m = sc.GPROD
         ks = sorted(rng.sample(range(m), 15))
-        ga = rand_spec(rng, (100, m), rng.randint(10, 80), "gcxs", [0], small={1: ks})
-        gb = rand_spec(rng, (m, 100), rng.randint(10, 80), "gcxs", [1], small={0: ks})
+        ga = rand_spec(rng, (gr, m), rng.randint(10, 80), "gcxs", [0], small={1: ks})
+        gb = rand_spec(rng, (m, gr), rng.randint(10, 80), "gcxs", [1], small={0: ks})
         gw = rand_spec(rng, (m,), rng.randint(3, 12), "gcxs", None, small={0: ks})
-        cases.append(mk_case("gcxs:(100,1e7)@(1e7,100)", "product", [ga, gb], ["matmul"], ("matmul", IN0, IN1)))
-        cases.append(mk_case("gcxs:(100,1e7)@(1e7,)", "product", [ga, gw], ["matmul"], ("sum", [False, True], ("bmul", IN0, IN1))))
-        # both result extents long: the COO kernel clears a buffer of one entry per result column for every result row
-        a = rand_spec(rng, (10 ** 6, 1000), 40, small={1: 12})
-        b = rand_spec(rng, (1000, 10 ** 6), 40, small={0: 12})
-        cases.append(mk_case("coo:(1e6,1e3)@(1e3,1e6)", "product", [a, b], ["matmul"], ("matmul", IN0, IN1), expect_clause=CL_T1))
+        cases.append(mk_case(f"gcxs:({gr},{m})@({m},{gr})", "product", [ga, gb], ["matmul"], ("matmul", IN0, IN1)))
+        cases.append(mk_case(f"gcxs:({gr},{m})@({m},)", "product", [ga, gw], ["matmul"], ("sum", [False, True], ("bmul", IN0, IN1))))
+        if sc.SLOW:
+            # both result extents long: the COO kernel clears a buffer of one entry per result column for every result row
+            n, m = sc.SLOW
+            a = rand_spec(rng, (n, m), 40, small={1: 12})
+            b = rand_spec(rng, (m, n), 40, small={0: 12})
+            cases.append(mk_case(f"coo:({n},{m})@({m},{n})", "product", [a, b], ["matmul"], ("matmul", IN0, IN1), expect_clause=CL_T1))
 
     # ---------------------------------------------------------------- nonzero, sort along a short axis
     for _ in range(n_rep):
@@ -787,6 +839,20 @@ def gen_cases(tier, rng):
         x = rand_spec(rng, K3, pick_nnz(rng, tier, big_ok=False), small={0: 6, 1: 5})
         cases.append(mk_case("coo:sort(axis=2)", "misc", [x], ["sort", 2], ("sortlast", IN0)))
         cases.append(mk_case("coo:sort(axis=-1)", "misc", [x], ["sort", -1], ("sortlast", IN0)))
+
+    if tier == "quick":
+        # a few operands with thousands of stored elements (the reference is quadratic in Coq for zip / reductions)
+        big = rand_spec(rng, S3, 3000, small={0: 50})
+        big2 = related_spec(rng, big, 1000)
+        cases.append(mk_case("coo:mulc[2]", "elemwise", [big], ["mulc", 2], ("map", "(UMulC 2)", IN0)))
+        cases.append(mk_case("coo:x add y", "elemwise", [big2, related_spec(rng, big2, 1000)], ["bin", "add"], ("zip", "BAdd", IN0, IN1)))
+        cases.append(mk_case("coo:sum(axis=[1, 2])", "reduce", [big], ["reduce", "sum", [1, 2]], ("sum", [False, True, True], IN0)))
+        cases.append(mk_case("coo:transpose([2, 0, 1])", "shape", [big], ["transpose", [2, 0, 1]], ("trans", [2, 0, 1], IN0)))
+        cases.append(mk_case("coo:reshape(-1)", "shape", [big], ["reshape", -1], ("reshape", [prod(S3)], IN0)))
+        idx = [("s", None, None, -1), FULL, ("s", 5, None, 3)]
+        cases.append(mk_case(f"coo:x[{idx}]", "index", [big], ["getitem", idx], ("get", idx, IN0)))
+    # calls expected to run into the time limit first, so that they overlap with everything else
+    cases.sort(key=lambda c: 0 if c["expect_clause"] in (CL_T1, CL_V1) else 1)
     return cases
 
 
